@@ -1,7 +1,7 @@
 #!/bin/sh
 # tools/snap_seed.sh <seed-id> <prop> [cases]: bounded search against a private snapshot of HEAD with the seeded change (does not touch /repo)
 id=$1; prop=$2; cases=${3:-20000}
-S=/var/tmp/repo-snap-$$
+S=/var/tmp/repo-snap-$$; mkdir -p /var/tmp/vt
 rm -rf $S; mkdir -p $S; git -C /repo archive HEAD | tar -x -C $S; cp /repo/Cargo.lock $S/ 2>/dev/null
 (cd $S && patch -p1 -s < /verif/seeded/$id/patch.diff) || exit 3
 VERIF_REPO=$S python3 - "$prop" "$cases" <<'EOP'
